@@ -355,6 +355,11 @@ func (x *tr) callKey(c *ast.CallExpr) string {
 		return f.Name
 	case *ast.SelectorExpr:
 		if sel, ok := x.p.TypesInfo.Selections[f]; ok {
+			if x.pkgVar(f.X) != "" {
+				if k := x.pkgVar(f.X) + "." + f.Sel.Name; x.hasCall(k) {
+					return k // a method of one particular package-level object, e.g. defaultLog.Warn
+				}
+			}
 			return types.TypeString(sel.Recv(), x.qual) + "." + f.Sel.Name
 		}
 		if id, ok := f.X.(*ast.Ident); ok {
@@ -365,6 +370,18 @@ func (x *tr) callKey(c *ast.CallExpr) string {
 	}
 	return ""
 }
+
+// pkgVar: the name of the package-level variable e is, or ""
+func (x *tr) pkgVar(e ast.Expr) string {
+	if id, ok := e.(*ast.Ident); ok {
+		if v, ok := x.p.TypesInfo.Uses[id].(*types.Var); ok && v.Parent() == x.p.Types.Scope() {
+			return id.Name
+		}
+	}
+	return ""
+}
+
+func (x *tr) hasCall(k string) bool { _, ok := x.t.calls[k]; return ok }
 
 func (x *tr) fill(tmpl string, c *ast.CallExpr) string {
 	var sb strings.Builder
@@ -895,15 +912,19 @@ func (x *tr) abrupt(stmts []ast.Stmt) bool {
 				found = true
 			case *ast.CallExpr:
 				switch key := x.callKey(z); key {
-				case "panic", "os.Exit":
+				case "panic", "os.Exit", "strings.Repeat":
 					found = true
 				default:
-					if cs, ok := x.t.calls[key]; ok && cs.tail != "" {
+					if cs, ok := x.t.calls[key]; ok && (cs.tail != "" || cs.partial) {
 						found = true
 					}
 				}
-			case *ast.SliceExpr, *ast.IndexExpr:
-				_ = z // partial operations end in the panic term: handled by hoist inside the branch
+			case *ast.SliceExpr:
+				found = true // an operation that can panic ends the whole function, not just the statement
+			case *ast.IndexExpr:
+				if _, isMap := x.p.TypesInfo.TypeOf(z.X).Underlying().(*types.Map); !isMap {
+					found = true
+				}
 			}
 			return true
 		})
@@ -952,7 +973,7 @@ func cat(a []ast.Stmt, b []ast.Stmt) []ast.Stmt { return append(append([]ast.Stm
 func (x *tr) effectCall(c *ast.CallExpr, cs callSpec, lhs []string, n ast.Node, tail func() string) string {
 	x.checkArgs(c)
 	if se, ok := c.Fun.(*ast.SelectorExpr); ok {
-		if _, isSel := x.p.TypesInfo.Selections[se]; isSel {
+		if _, isSel := x.p.TypesInfo.Selections[se]; isSel && x.pkgVar(se.X) == "" {
 			x.expr(se.X) // the receiver must be in the fragment too
 		}
 	}
@@ -1019,7 +1040,16 @@ func (x *tr) results(z *ast.ReturnStmt) string {
 	}
 	mark := len(x.pending)
 	var parts []string
-	for _, r := range z.Results {
+	for i, r := range z.Results {
+		if id, ok := r.(*ast.Ident); ok && id.Name == "nil" && x.t.strict {
+			// an untyped nil takes the type of the result it is returned as
+			sig := x.p.TypesInfo.Defs[x.fd.Name].Type().(*types.Signature)
+			if sig.Results().Len() != len(z.Results) {
+				x.bad(z, "return form")
+			}
+			parts = append(parts, x.nilOf(x.coqType(sig.Results().At(i).Type()), r))
+			continue
+		}
 		parts = append(parts, x.expr(r))
 	}
 	if x.t.strict {
@@ -1397,8 +1427,13 @@ func (x *tr) assignStrict(z *ast.AssignStmt, tail func() string) string {
 			continue
 		}
 		nm, _ := x.lhsName(z.Lhs[i])
-		rhs := x.expr(z.Rhs[i])
 		lk, rk := x.exprKind(z.Lhs[i]), x.exprKind(z.Rhs[i])
+		rhs := ""
+		if id, ok := z.Rhs[i].(*ast.Ident); ok && id.Name == "nil" {
+			rhs, rk = x.nilOf(lk, z), lk // an untyped nil takes the type of what it is assigned to
+		} else {
+			rhs = x.expr(z.Rhs[i])
+		}
 		if lk == "?" || (lk != rk && !(strings.HasPrefix(lk, "gomap ") && strings.HasPrefix(rk, "map "))) {
 			x.bad(z, "assignment between different translated types ("+lk+" := "+rk+")")
 		}
